@@ -259,6 +259,9 @@ pub fn tree_calls(s: &Subject, others: &[Subject]) -> Vec<(String, String, &'sta
     i!("tree.debug", String::new(), |c: &mut Tree| format!("{c:?}").len());
     // ... and the equality the crate defines on nodes, over every pair of live nodes (never a panic; no property says what it must answer)
     i!("node.eq", "every pair of live nodes".to_string(), |c: &mut Tree| { let mut k = 0; for x in 0..c.size() { for y in 0..c.size() { if let (Ok(a), Ok(b)) = (c.get(&x), c.get(&y)) { if a == b { k += 1; } } } } k });
+    // the remaining public setters of Node, on COPIES of the nodes (applied inside a tree they would break the arena's consistency,
+    // which is C03's business): never a panic, and the getters read back what was set
+    i!("node.set_id;set_depth", "a copy of every live node".to_string(), |c: &mut Tree| { let mut k = 0; for x in 0..c.size() { if let Ok(nd) = c.get(&x) { let mut n = nd.clone(); n.set_id(x + 7); n.set_depth(x + 3); if n.id != x + 7 || n.get_depth() != x + 3 { panic!("setter not read back") } k += 1; } } k });
     r!("print", String::new(), |c: &mut Tree| c.print());
     r!("print_debug", String::new(), |c: &mut Tree| c.print_debug());
     r!("to_file-unwritable", String::new(), |c: &mut Tree| c.to_file(std::path::Path::new("/nonexistent-dir/x.nwk")));
